@@ -1,5 +1,6 @@
 import VProps.C19
 import VProofs.ConcDnsClient
+import VDriver.Conc
 #print axioms V.C19.dns_size_bounded
 #print axioms V.C19.dns_no_dup_keys
 #print axioms V.C19.dns_no_stale_served
@@ -53,3 +54,5 @@ import VProofs.ConcDnsClient
 #print axioms V.C19Client.no_dup_keys_with_injections
 #print axioms V.C19Client.right_host_with_injections
 #print axioms V.C19Client.clientReach_poke
+-- the definition the driver replays client ops with IS the one the injection theorems are about
+example : @V.Driver.ConcOps.injectOps = @V.C19Client.injectOps := rfl
